@@ -33,7 +33,7 @@ func (c *vxStubCurve) Evaluate() (int, error) { return c.v, nil }
 func (c *vxStubCurve) CurrentValue() int      { return c.v }
 
 type vxC04SharedCase struct {
-	Algo   string `json:"algo"`   // default | pid | direct | deprecated
+	Algo   string `json:"algo"`   // default | pid | direct (rate-limited) | direct-plain (no maxPwmChangePerCycle) | direct-empty (direct: {}) | deprecated
 	Other  []int  `json:"other"`  // curve values the OTHER fan toggles between
 	Steady int    `json:"steady"` // constant curve value of the observed fan
 }
@@ -56,6 +56,9 @@ func vxC04SharedRun(t *testing.T, c vxC04SharedCase, fs *env.FS) (fail [2]string
 			case "direct":
 				m := 10
 				fc.ControlAlgorithm = &configuration.ControlAlgorithmConfig{Direct: &configuration.DirectControlAlgorithmConfig{MaxPwmChangePerCycle: &m}}
+			case "direct-plain", "direct-empty":
+				// `controlAlgorithm: direct` / `direct: {}`: no rate limit, the request is the target at once
+				fc.ControlAlgorithm = &configuration.ControlAlgorithmConfig{Direct: &configuration.DirectControlAlgorithmConfig{}}
 			case "deprecated":
 				fc.ControlLoop = &configuration.ControlLoopConfig{P: 0.3, I: 0.02, D: 0.005} //nolint:all
 			}
@@ -94,7 +97,11 @@ func vxC04SharedRun(t *testing.T, c vxC04SharedCase, fs *env.FS) (fail [2]string
 		for k := 0; k < 1800; k++ {
 			time.Sleep(100*time.Millisecond + 11*time.Microsecond)
 			cb.v = c.Other[(k/50)%len(c.Other)]
-			if k >= 600 {
+			from := 600
+			if c.Algo == "direct-plain" || c.Algo == "direct-empty" {
+				from = 15 // the plain direct algorithm is at its steady value with the first regulation cycle
+			}
+			if k >= from {
 				v := fs.Val(pathA)
 				if v < lo {
 					lo = v
@@ -107,6 +114,14 @@ func vxC04SharedRun(t *testing.T, c vxC04SharedCase, fs *env.FS) (fail [2]string
 		cancel()
 		wg.Wait()
 	})
+	if fail[0] == "" && (c.Algo == "direct-plain" || c.Algo == "direct-empty") && (lo != c.Steady || hi != c.Steady) {
+		fail = [2]string{"C04 plain direct algorithm (no maxPwmChangePerCycle) is not at its steady value from the first regulation cycle on",
+			fmt.Sprintf("observed fan: curve constant at %d, written PWM ranged %d..%d from 1.5 s after regulation began (fan built by the daemon's controller factory)", c.Steady, lo, hi)}
+	}
+	if fail[0] == "" && (hi < c.Steady-1 || lo > c.Steady+1) {
+		fail = [2]string{"C04 steady request differs from the plain direct value (" + c.Algo + " algorithm, controller factory)",
+			fmt.Sprintf("observed fan: curve constant at %d (file fan, full range: plain direct gives %d), written PWM settled in %d..%d", c.Steady, c.Steady, lo, hi)}
+	}
 	if fail[0] == "" && hi-lo > 2 {
 		fail = [2]string{"C04 a fan's request keeps moving at a constant curve value while ANOTHER fan's curve changes (" + c.Algo + " algorithm)",
 			fmt.Sprintf("observed fan: curve constant at %d, written PWM ranged %d..%d over the last 120 virtual seconds while the other fan's curve toggled between %v", c.Steady, lo, hi, c.Other)}
@@ -127,7 +142,7 @@ func TestVX_C04shared(t *testing.T) {
 		}
 		cases = []vxC04SharedCase{rc}
 	} else {
-		for _, algo := range []string{"default", "pid", "direct", "deprecated"} {
+		for _, algo := range []string{"default", "pid", "direct", "deprecated", "direct-plain", "direct-empty"} {
 			for _, other := range [][]int{{20, 240}, {0, 255}, {100, 100}} {
 				for _, steady := range []int{0, 100, 255} {
 					cases = append(cases, vxC04SharedCase{algo, other, steady})
